@@ -596,21 +596,23 @@ func Digest(parts ...[]byte) string {
 // ---- hang guard
 
 type guardState struct {
-	mu      sync.Mutex
-	active  bool
-	started time.Time
-	info    func() (key, desc string, replay any)
-	r       *Result
-	e       *Env
-	limit   time.Duration
+	mu       sync.Mutex
+	active   bool
+	started  time.Time
+	info     func() (key, desc string, replay any)
+	r        *Result
+	e        *Env
+	limit    time.Duration
+	startCPU float64
 }
 
 var guard guardState
 var guardOnce sync.Once
 
 // Guard protects one case against a hang (a decoder that loops forever cannot
-// be interrupted): if the case is still running after limit of wall-clock
-// time - orders of magnitude above its normal cost - the violation described
+// be interrupted): if the case has used more CPU time than limit - orders of
+// magnitude above its normal cost - or made no progress for ten times the limit
+// of wall-clock time, the violation described
 // by info is recorded, the shard result is written and the process exits;
 // the rest of the shard is reported as capped.  Call the returned func when
 // the case is over.
@@ -620,7 +622,10 @@ func (e *Env) Guard(r *Result, limit time.Duration, info func() (key, desc strin
 			for {
 				time.Sleep(500 * time.Millisecond)
 				guard.mu.Lock()
-				if guard.active && time.Since(guard.started) > guard.limit {
+				// a hang is an endless loop (the process burns CPU for longer than the limit) or a
+				// deadlock (no progress for ten times the limit); wall time alone is not an oracle:
+				// a starved process on a loaded machine is slow, not hung
+				if guard.active && (processCPU()-guard.startCPU > guard.limit.Seconds() || time.Since(guard.started) > 10*guard.limit) {
 					k, d, rp := guard.info()
 					rr, ee := guard.r, guard.e
 					guard.mu.Unlock()
@@ -637,6 +642,7 @@ func (e *Env) Guard(r *Result, limit time.Duration, info func() (key, desc strin
 	})
 	guard.mu.Lock()
 	guard.active, guard.started, guard.info, guard.r, guard.e, guard.limit = true, time.Now(), info, r, e, limit
+	guard.startCPU = processCPU()
 	guard.mu.Unlock()
 	return func() {
 		guard.mu.Lock()
